@@ -1,5 +1,6 @@
 """C16 — inspection is pure: read-only queries never change later behaviour."""
 from __future__ import annotations
+import os
 from core import Case, Failure
 import rvgen
 import toygen
@@ -36,6 +37,16 @@ def cases(rng, tier):
     for i in range(100 if tier == "quick" else 2000):
         c = toygen.image_case(rng, toygen.mixed_calls if i % 2 else toygen.step_only, max_steps=25, suite="toy-insp")
         yield with_insp(rng, c, "toy.insp", 6)
+    for i in range(60 if tier == "quick" else 1000):
+        # forward branches taken and not taken in turn, half-cycle calls, EVERY getter after every call
+        c = toygen.branchy_case(rng, (lambda r: "single") if i % 2 else toygen.mixed_calls, suite="toy-insp-branchy")
+        out = []
+        for l in c.lines:
+            out.append(l)
+            if l.startswith("toy.call") or l.startswith("toy.load"):
+                out.append("toy.insp 63")
+        c.lines = out
+        yield c
 
 
 def nontrivial(c):
@@ -47,6 +58,55 @@ def nontrivial(c):
 def measure(c, stats):
     stats.bump("suite=" + c.suite)
     stats.bump("inspection_calls", sum(1 for l in c.lines if ".insp" in l))
+
+
+def _only(lines, k):
+    """the case with every inspection line removed except the k-th"""
+    out, j = [], -1
+    for l in lines:
+        if ".insp" in l:
+            j += 1
+            if j != k:
+                continue
+        out.append(l)
+    return out
+
+
+def _global_effect(c):
+    """A module/class-level table of the code changed while the case ran. Show what it does: from the import-time
+    tables each time (`impl.global_restore`), run the case as it is, the case without inspection calls, and the case
+    with a single inspection call kept. Step answers, final views and the result of the kept call must agree."""
+    import fresh_sessions
+
+    def rec(lines):
+        implmod.global_restore()
+        try:
+            return fresh_sessions.record(lines)
+        finally:
+            implmod.global_restore()
+    plain = [l for l in c.lines if ".insp" not in l]
+    n_insp = len(c.lines) - len(plain)
+    full, ref = rec(c.lines), rec(plain)
+    if full["answers"] != ref["answers"]:
+        return Failure("oracle", PROP, "step answers differ between a run with and a run without inspection calls", "insp:changes-behaviour")
+    if full["views"] != ref["views"]:
+        return Failure("oracle", PROP, "final views differ between a run with and a run without inspection calls", "insp:changes-view")
+    ks = list(range(n_insp)) if n_insp <= 24 else sorted({(i * n_insp) // 24 for i in range(24)} | {n_insp - 1})
+    for k in ks:
+        one = rec(_only(c.lines, k))
+        if one["insp"][0] != full["insp"][k]:
+            which = next((g for (g, x), (_, y) in zip(one["insp"][0], full["insp"][k]) if x != y), "?")
+            return Failure("oracle", PROP, f"inspection call #{k} (`{which}`) answers differently when the earlier inspection calls are left out: an earlier call changed a module/class-level table of the simulator", "insp:mutates-global-table")
+    # the next simulation in the same process
+    implmod.global_restore()
+    try:
+        fresh_sessions.record(c.lines)
+        again = fresh_sessions.record(plain)
+    finally:
+        implmod.global_restore()
+    if again != ref:
+        return Failure("oracle", PROP, "an inspection call changed a module/class-level table of the simulator: the NEXT simulation of the same program in the process differs from one started from the shipped tables", "insp:mutates-global-table")
+    return None
 
 
 def oracle(c):
@@ -67,12 +127,38 @@ def oracle(c):
             return fails
         if oa.startswith("F") or oa.startswith("X"):
             break
+    # every later inspection result is the one of a run without the earlier calls: keep a single inspection call
+    insp_idx = [i for i, l in enumerate(c.lines) if ".insp" in l]
+    if len(insp_idx) >= 2 and not c.meta.get("global_changed"):
+        import fresh_sessions
+        full = fresh_sessions.record(c.lines)
+        h = sum(len(l) for l in c.lines)
+        for k in sorted({len(insp_idx) - 1, h % len(insp_idx)}):
+            one = fresh_sessions.record(_only(c.lines, k))
+            if one["insp"][0] != full["insp"][k]:
+                which = next((g for (g, x), (_, y) in zip(one["insp"][0], full["insp"][k]) if x != y), "?")
+                return [Failure("oracle", PROP, f"inspection call #{k} (`{which}`) answers differently when the earlier inspection calls are left out", "insp:changes-later-inspection")]
     if c.meta.get("global_changed"):
-        return [Failure("oracle", PROP, "an inspection call changed a module/class-level table of the simulator (shared by every simulation in the process)", "insp:mutates-global-table")]
+        # a module/class-level table of the code changed while this case ran. That is a violation only if it shows:
+        # run (case with inspection; then the same program again without) in one fresh interpreter and (the program
+        # without inspection) in another, and compare everything observable.
+        f = _global_effect(c)
+        if f is not None:
+            return [f]
+        c.meta["note"] = "process-wide table changed during the case, no observable effect found"
     da = implmod.deep_state(a.toy if toy else a.sim)
     db = implmod.deep_state(b.toy if toy else b.sim)
     if da != db:
-        return [Failure("oracle", PROP, "the object graphs of the run with and the run without inspection calls differ (hidden state changed by a getter)", "insp:hidden-state")]
+        # hidden state differs (e.g. a memo filled by a getter): not by itself a difference in any later result;
+        # run both simulations on to the end and compare every answer, then the views below
+        c.meta["note"] = "object graphs differ after inspection calls (hidden state); searched on for an observable effect"
+        step = "toy.call step" if toy else "sim.step"
+        for _ in range(400):
+            oa, ob = a.run(step), b.run(step)
+            if oa != ob:
+                return [Failure("oracle", PROP, f"after inspection calls a later `{step}` answers differently: `{oa[:150]}` vs `{ob[:150]}`", "insp:changes-behaviour")]
+            if oa.startswith("F") or oa.startswith("X") or "done=1" in oa:
+                break
     try:
         va = a.toy_views(63) if toy else (a.sim_views((1 << 13) - 1) if a.sim is not None else [])
         vb = b.toy_views(63) if toy else (b.sim_views((1 << 13) - 1) if b.sim is not None else [])
